@@ -529,8 +529,9 @@ func runFlags(ctx *core.RunCtx) {
 	// Lua glue for the spellings that need Lua code around the call
 	glue := h.Run("glue", `return function(f) local co = coroutine.wrap(function() return f(coroutine.yield()) end) co() return co end,
 	function(f) return load("local f = ... return function(...) return f(...) end")(f) end,
-	function(f) return setmetatable({}, {__call = function(_, ...) return f(...) end}) end`)
-	if glue.Err != nil || glue.Panic != nil || len(glue.Values) != 3 {
+	function(f) return setmetatable({}, {__call = function(_, ...) return f(...) end}) end,
+	function(flagstr, f, ...) local r = table.pack(runtime.callcontext({flags = flagstr}, f, ...)) if r[1].status == "error" then error(r[2], 0) end return table.unpack(r, 2, r.n) end`)
+	if glue.Err != nil || glue.Panic != nil || len(glue.Values) != 4 {
 		ctx.Fail("C08", "C08.H", "harness", "glue chunk failed: %s", glue.String())
 		return
 	}
@@ -545,6 +546,7 @@ func runFlags(ctx *core.RunCtx) {
 	}
 	// one protected call of f inside a context requiring flags
 	typeFn := h.R.GlobalEnv().Get(rt.StringValue("type"))
+	var nameOrder uint64 // spelling 10: the order in which the required flags are named
 	call := func(flags rt.ComplianceFlags, spelling int, args []rt.Value) (errS string, results []rt.Value, liveAfter bool, pan interface{}) {
 		defer func() {
 			if r := recover(); r != nil {
@@ -558,10 +560,30 @@ func runFlags(ctx *core.RunCtx) {
 				spelling = 0
 			}
 		}
-		_, _ = th.CallContext(rt.RuntimeContextDef{RequiredFlags: flags}, func() error {
+		outer := flags
+		if spelling == 10 {
+			outer = 0 // the requiring context is pushed by Lua code, see below
+		}
+		_, _ = th.CallContext(rt.RuntimeContextDef{RequiredFlags: outer}, func() error {
 			term := rt.NewTerminationWith(nil, 0, true)
 			var err error
 			switch spelling {
+			case 10: // the context is made by Lua code, the flags named in a list in some order
+				var names []string // (spelled here, not with golua's own Names())
+				for _, fl := range []struct {
+					f rt.ComplianceFlags
+					n string
+				}{{rt.ComplyCpuSafe, "cpusafe"}, {rt.ComplyMemSafe, "memsafe"}, {rt.ComplyTimeSafe, "timesafe"}, {rt.ComplyIoSafe, "iosafe"}} {
+					if flags&fl.f != 0 {
+						names = append(names, fl.n)
+					}
+				}
+				for i, x := len(names)-1, nameOrder; i > 0; i-- {
+					j := int(x % uint64(i+1))
+					x /= uint64(i + 1)
+					names[i], names[j] = names[j], names[i]
+				}
+				err = rt.Call(th, glue.Values[3], append([]rt.Value{rt.StringValue(strings.Join(names, " ")), fn.v}, args...), term)
 			case 4, 5, 6: // set up outside the context, finished inside it
 				err = rt.Call(th, pre, args, term)
 			case 7, 8, 9: // inside a nested context with limits (time; cpu and memory; flags only) of its own
@@ -658,6 +680,12 @@ func runFlags(ctx *core.RunCtx) {
 		for rep := 0; rep < 2; rep++ {
 			args, adesc := mkArgs(rep == 0 && g.Chance(2, 3))
 			spelling := g.Choose(10)
+			// (decided from what the tape already chose, without drawing from it: replays recorded before
+			// this spelling existed keep their meaning)
+			if hsh := core.HashString(fmt.Sprintf("%s|%d|%d|%s", fn.path, bits, rep, adesc)); hsh%5 == 0 {
+				spelling, nameOrder = 10, hsh>>16
+				ctx.Count("calls in a context made by Lua code from a list of flag names", 1)
+			}
 			traced := tracer != nil && (bits&^declared != 0 || bits&8 != 0)
 			if traced {
 				tracer.begin()
